@@ -45,7 +45,7 @@ func sigVarieties() []sigVariety {
 var (
 	reSecond = regexp.MustCompile(`^second return type is .*; must be`)
 	reThird  = regexp.MustCompile(`^third return type is .*; must be error`)
-	reDupArg = regexp.MustCompile(`provider (?:struct )?has multiple (?:parameters|fields) of type (.*)$`)
+	reDupArg = regexp.MustCompile(`provider (?:struct )?has multiple (?:parameters|fields) of type (.*?)(?: \(\S+ and \S+\))?$`)
 )
 
 func sigErrStr(err error) string {
